@@ -660,6 +660,8 @@ def run(tier='quick', replay=None):
                         'diff(delta(2*t - 1), t)', 'v(t)*delta(t - 1)', '3*v(t)*delta(t)', 'v(t)*delta(2*t - 1)',
                         'diff(delta(t - 1), t)*v(t)', '5*delta(t)', 'cos(t)*delta(t) + t', 'exp(-2*t)*diff(delta(t), t)'):
                 cases.insert(0, {'expr': txt, 'zic': False, 'kinds': ['corpus'], 'points': make_points(rng), 'oracle': True})
+                if txt == 'diff(delta(t - 1), t)*v(t)':
+                    cases[0]['expect'] = 'error'
         tph['translate+gen'] = round(time.time() - t_, 1); t_ = time.time()
         results = core.run_impl('impl_laplace.py', cases) if cases else []
         tph['impl'] = round(time.time() - t_, 1); t_ = time.time()
@@ -801,6 +803,10 @@ def run(tier='quick', replay=None):
             if st != 'ok':
                 continue
             nontrivial = any(e != 0 for e in r['trace'])
+            if c.get('expect') == 'error':
+                # a product the transformer must refuse (the model has no value for it)
+                res.disagreements.append({'case': c, 'lcapy': r.get('result'), 'code': 3, 'oracle': (r.get('oracle') or {}).get('verdict'),
+                                          'why': 'expected "Could not compute" but a value was returned'})
             res.add_case(c['expr'] + '|' + str(c['zic']), nontrivial,
                          {'expr': c['expr'], 'zic': c['zic'], 'lcapy': r['result'], 'dispatch_events': r['trace'],
                           'oracle': (r.get('oracle') or {}).get('verdict')} if i % 23 == 0 else None)
